@@ -11,7 +11,8 @@ TECHNIQUE = ("per-arm call classification of section_element()/paragraph_element
              "carrier / inert) read from the expanded syntax, on the INLINED view of each function (calls to private helpers of the crate replaced by their bodies, "
              "lib/synflow.Inliner); guard tracking (lib/synflow.GuardWalk: what is known about one predicate - fence disabled / namespace is 0 / isolation flag - at every "
              "evaluator call, fence evaluation and Err exit, whatever the spelling of the test); provenance of the interpreter handed to the fence evaluator; "
-             "MIR provenance of the closing-fence parser in code_block")
+             "MIR provenance of the closing-fence parser in code_block; line grammar of the document parser (lib/linegram.py: recognisers as item sequences classified by the "
+             "literal sets of the leaf token parsers, FIRST literals of the code parser, pre-emption sets by source order of parser applications)")
 EXPLANATION = (
     "Decides structural clauses of C10: (R1) in section_element() the arms of prose variants only hash their node (no evaluator, no symbol access); inline "
     "carriers (paragraph, comment, table, figure table) reach only paragraph_element(), which evaluates only inline-eval code; a new SectionElement variant "
@@ -25,6 +26,11 @@ EXPLANATION = (
     " (R8) every path from FunctionScope::enter to a return restores the caller's scope (an error inside a user function called from a named fence or an inline expression must not leave the interpreter on the function's local tables)."
     ' (R9) a comment extends exactly to the end of its line: the consumer comment() applies after the sigil stops at new_line and at nothing else.'
     " (R10) every SectionElement variant compiled in is named by an arm of the dispatcher that does not reject it (the catch-all is an Err): a prose element without an accepting arm aborts the document."
+    " (R11) line discipline of the document grammar, read off the parser functions as item sequences (line end / in-line blanks / optional line end / marker run / sigil / content, classified from the "
+    "literal sets of the leaf token parsers): every underlined-heading recogniser (title, numbered section heading - found by shape) has a mandatory marker run, and when some literal with which code can "
+    "begin (FIRST literals of the code parser's alternatives, as far as derivable) starts with its marker, the run is followed by a mandatory line end, i.e. the underline is a whole line; every recogniser "
+    "consulted before a code parser at the same position (section(), program(), mech_code()) carries a leading sigil no derivable code start begins with or is such a heading; the code parser is tried "
+    "before the generic prose parser; the statement terminator has a mandatory line-end alternative; the text loop of these recognisers stops at a line end. Which documents parse to which tree is not decided."
 )
 
 EXEC = {"MechCode", "FencedMechCode", "Mika", "Float"}
@@ -127,6 +133,8 @@ def run(F, rep, tier):
     _run(F, rep, tier)
     from rules.c10_cover import run_r10
     run_r10(F, rep)
+    from rules.c10_lines import run_r11
+    run_r11(F, rep)
 
 
 def _run(F, rep, tier):
